@@ -36,16 +36,15 @@ def run(model, rep):
     srcp = mi.positional[0]
 
     # ---- BYTES
-    parse_calls = [c for c in calls(mi.node) if src(c.func) in ('ast.parse', 'parse') and (model.is_ast_alias(mi.module, 'ast') or True)]
-    parse_calls = [c for c in parse_calls if isinstance(c.func, ast.Attribute) and isinstance(c.func.value, ast.Name) and model.is_ast_alias(mi.module, c.func.value.id)]
-    if not parse_calls:
-        raise AnalysisError('no ast.parse call in minify')
-    first = parse_calls[0]
-    a0 = first.args[0] if first.args else kwarg(first, 'source')
-    only_param = defs.get(srcp) == ['<param>']
-    rep.check(isinstance(a0, ast.Name) and a0.id == srcp and only_param, 'C16.BYTES', mi.loc(first), src(first),
-              'the caller\'s source object itself is parsed', 'the source is transformed before it is parsed (argument %s; definitions of %s: %d)' % (src(a0), srcp, len(defs.get(srcp, []))),
-              key='C16.BYTES|parse')
+    # minify() evaluated with recorders (pmstatic.apirun): the object handed to the interpreter's parser is the caller's source itself, text or bytes
+    from .. import apirun
+    for what, source in (('text', 'x = "caf\xe9"\r\n'), ('bytes with a latin-1 cookie and CR line ends', b'# -*- coding: latin-1 -*-\rx = "\xe9"\r'), ('bytes with a BOM', b'\xef\xbb\xbfx = 1\n')):
+        r = apirun.run(model, kwargs={}, source=source)
+        parsed = [t for t in r.trace if t[0] == 'parse']
+        ok = len(parsed) == 1 and parsed[0][1] is source or (len(parsed) == 1 and parsed[0][1] == source and type(parsed[0][1]) is type(source))
+        rep.check(ok, 'C16.BYTES', mi.loc(), 'minify(<%s>) hands %r to the parser' % (what, parsed[0][1] if parsed else None), 'the caller\'s source object itself',
+                  'the source is transformed before it is parsed (%r instead of %r): decoding, BOM / cookie handling and line ends are no longer the interpreter\'s own' % (parsed[0][1] if parsed else None, source),
+                  key='C16.BYTES|parse|' + what)
     # the command line tool: evaluated end to end (pmstatic.clirun) on sources with a BOM, CRLF / CR line ends, a latin-1 cookie, undecodable bytes
     from .. import clirun
     main = model.func(MAIN + '.main')
@@ -84,49 +83,20 @@ def run(model, rep):
     rep.floor('C16.ENC', 27)
 
     # ---- SHEB
-    fs = model.func('python_minifier._find_shebang')
-    # (what the finder returns for text and bytes sources is decided by the enumeration in sheb_enum)
-    # returns of minify
-    unparse_q = 'python_minifier.unparse'
-    n_ret = 0
-    for (ret, facts) in F.returns:
-        n_ret += 1
-        v = ret.value
-        where = mi.loc(ret)
-
-        def is_unparse_result(e):
-            if isinstance(e, ast.Name):
-                ds = defs.get(e.id, [])
-                return len(ds) == 1 and isinstance(ds[0], ast.Call) and isinstance(ds[0].func, ast.Name) and model.resolve_name(mi.module, ds[0].func.id) == unparse_q
-            return isinstance(e, ast.Call) and isinstance(e.func, ast.Name) and model.resolve_name(mi.module, e.func.id) == unparse_q
-
-        def is_shebang(e):
-            if isinstance(e, ast.Name):
-                ds = defs.get(e.id, [])
-                return len(ds) == 1 and isinstance(ds[0], ast.Call) and isinstance(ds[0].func, ast.Name) and model.resolve_name(mi.module, ds[0].func.id) == fs.qual \
-                    and len(ds[0].args) == 1 and isinstance(ds[0].args[0], ast.Name) and ds[0].args[0].id == srcp
-            return False
-        if is_unparse_result(v):
-            rep.ok('C16.SHEB', where, 'return ' + src(v), 'plain result of unparse', key='C16.SHEB|minify-return|plain')
-            continue
-        # shape: shebang + '\n' + minified
-        parts = []
-
-        def flat(e):
-            if isinstance(e, ast.BinOp) and isinstance(e.op, ast.Add):
-                flat(e.left)
-                flat(e.right)
-            else:
-                parts.append(e)
-        flat(v)
-        shape = len(parts) == 3 and is_shebang(parts[0]) and isinstance(parts[1], ast.Constant) and parts[1].value == '\n' and is_unparse_result(parts[2])
-        pres = mi.params and 'preserve_shebang' in mi.params
-        gate = facts is not None and (('preserve_shebang is True', True) in facts or ('preserve_shebang', True) in facts)
-        notnone = facts is not None and isinstance(parts[0], ast.Name) and ((src(parts[0]) + ' is None', False) in facts or (src(parts[0]), True) in facts)
-        rep.check(shape and gate and notnone and defs.get('preserve_shebang') == ['<param>'], 'C16.SHEB', where, 'return ' + src(v),
-                  'shebang + newline + result, only under preserve_shebang and a found shebang',
-                  'return value is not <shebang found in source> + "\\n" + <unparse result> under preserve_shebang (shape=%s gate=%s found=%s)' % (shape, gate, notnone),
-                  key='C16.SHEB|minify-return|prefixed')
+    # what minify() returns, evaluated over preserve_shebang x (first line is / is not a shebang) x (text / bytes source)
+    for preserve in (True, False):
+        for shebang in (None, '#!/usr/bin/env python3 -O'):
+            for source in ('SOURCE TEXT', b'SOURCE BYTES'):
+                r = apirun.run(model, kwargs={'preserve_shebang': preserve}, shebang=shebang, source=source)
+                if r.outcome[0] != 'return':
+                    raise AnalysisError('UNDECIDED: minify(preserve_shebang=%r) -> %s' % (preserve, r.outcome))
+                want = (shebang + '\n' + 'MINIFIED') if (preserve and shebang) else 'MINIFIED'
+                finds = [t for t in r.trace if t[0] == 'call' and t[1] == '_find_shebang']
+                looked_at_source = all(t[2] and t[2][0] is source or (t[2] and t[2][0] == source) for t in finds)
+                label = 'preserve_shebang=%r, %s, %s source' % (preserve, 'first line %r' % shebang if shebang else 'no shebang line', 'bytes' if isinstance(source, bytes) else 'text')
+                rep.check(r.outcome[1] == want and looked_at_source, 'C16.SHEB', mi.loc(), '%s -> %r' % (label, r.outcome[1]),
+                          'the shebang line, a newline, then the printed module - only when preservation is on and the source has one',
+                          'minify returns %r, expected %r%s' % (r.outcome[1], want, '' if looked_at_source else ' (the shebang is looked for in something other than the source)'), key='C16.SHEB|minify-return|' + label)
     sheb_enum(model, rep)
     rep.floor('C16.SHEB', 17)
 
@@ -198,43 +168,42 @@ def run(model, rep):
 
 
 def sheb_enum(model, rep):
-    """_find_shebang abstractly evaluated on source shapes: result = the first line (without its line ending) when it starts with #!, else None;
-    text and bytes agree."""
+    """minify(source, preserve_shebang=True) evaluated (pmstatic.apirun; the repository's own pattern matched by the regular expression engine) on
+    source shapes: the result starts with the first line (without its line ending) when that line starts with #!, and is the bare module
+    otherwise; text and bytes sources agree."""
     import re
-    from ..absint import Interp, TOP
-    fs = model.func('python_minifier._find_shebang')
+    from .. import apirun
+    mi = model.func(MINIFY)
     shapes = ['#!/bin/sh\nx=1\n', '#!/bin/sh\r\nx=1\r\n', '#!/bin/sh\rx=1\r', '#!/bin/sh', '#!', '#!\nx=1', 'x=1\n#!/bin/sh\n', ' #!/bin/sh\nx=1', '# !/bin/sh\nx=1', '\n#!/bin/sh\n', '',
-              '#!/usr/bin/env python3 -O\nimport a\n', '#!a\n#!b\n', '#!/bin/sh\n\rx', '#!/usr/bin/python # -*- coding: latin-1 -*-\nx=1\n', '#!/usr/bin/python # -*- coding: utf-8 -*-\nx=1\n']
-
-    def hook(I, e, args, kw, env):
-        if len(args) >= 2 and isinstance(args[0], (str, bytes)) and isinstance(args[1], (str, bytes)) and type(args[0]) is type(args[1]):
-            flags = args[2] if len(args) > 2 and isinstance(args[2], int) else 0
-            return re.match(args[0], args[1], flags)
-        return TOP
-    hooks = {'re.match': hook, 're.search': lambda I, e, args, kw, env: re.search(*args) if all(isinstance(a, (str, bytes, int)) for a in args) else TOP}
+              '#!/usr/bin/env python3 -O\nimport a\n', '#!a\n#!b\n', '#!/bin/sh\n\rx', '#!/usr/bin/python # -*- coding: latin-1 -*-\nx=1\n', '#!/usr/bin/python # -*- coding: utf-8 -*-\nx=1\n',
+              '#!/bin/sh\x0cx=1\n', '#!/bin/sh\u2028x=1\n']
     for s in shapes:
-        want = None
         accept = {None}
+        want = None
         if s.startswith('#!'):
             want = re.split(r'[\r\n]', s)[0]
             accept = {want}
             if s[len(want):len(want) + 2] == '\r\n':
                 accept.add(want + '\r')   # a CRLF first line reproduced with its CR is still the same first line
         got = {}
-        for kind, arg in (('text', s), ('bytes', s.encode('ascii'))):
-            I = Interp(model, 'python_minifier', hooks)
-            res = I.explore(lambda: I.call_function(fs.qual, [arg]))
-            outs = {r[0] for r in res}
-            if len(outs) != 1 or list(outs)[0][0] != 'return' or list(outs)[0][1] is TOP:
-                raise AnalysisError('UNDECIDED: _find_shebang(%r) -> %s %s' % (arg, outs, res[0][2][:3]))
-            got[kind] = list(outs)[0][1]
+        for kind, arg in (('text', s), ('bytes', s.encode('utf-8'))):
+            r = apirun.run(model, kwargs={'preserve_shebang': True}, source=arg, real_shebang=True)
+            if r.outcome[0] != 'return' or not isinstance(r.outcome[1], str):
+                raise AnalysisError('UNDECIDED: minify(%r, preserve_shebang=True) -> %s' % (arg, r.outcome))
+            text = r.outcome[1]
+            if text == 'MINIFIED':
+                got[kind] = None
+            elif text.endswith('\nMINIFIED'):
+                got[kind] = text[:-len('\nMINIFIED')]
+            else:
+                got[kind] = '<malformed: %r>' % text
         ok = got['text'] in accept and got['bytes'] == got['text']
         if ok and want is not None and re.search(r'coding[:=]\s*([-\w.]+)', got['text'] or '') and not re.search(r'coding[:=]\s*(utf-?8)', got['text'] or '', re.I):
             # the line is re-attached verbatim (C16.SHEB minify-return), so a PEP 263 cookie written on the shebang line survives into output that is UTF-8
-            rep.violation('C16.COOKIE', fs.loc(), '_find_shebang(%r)' % s[:50], 'the preserved first line still declares a non-UTF-8 source encoding while the result is encoded as UTF-8: non-ASCII constants are read back wrongly',
+            rep.violation('C16.COOKIE', mi.loc(), 'minify(%r, preserve_shebang=True)' % s[:50], 'the preserved first line still declares a non-UTF-8 source encoding while the result is encoded as UTF-8: non-ASCII constants are read back wrongly',
                           key='C16.COOKIE|shebang-line-cookie')
             continue
-        rep.check(ok, 'C16.SHEB', fs.loc(), '_find_shebang(%r) -> text %r, bytes %r' % (s[:30], got['text'], got['bytes']), 'the first line when it starts with #!',
+        rep.check(ok, 'C16.SHEB', mi.loc(), 'first line of minify(%r, preserve_shebang=True) -> text %r, bytes %r' % (s[:30], got['text'], got['bytes']), 'the first line when it starts with #!',
                   'for the source %r the shebang found is %r (text) / %r (bytes), expected %r: %s' % (s[:30], got['text'], got['bytes'], want,
                    'everything up to the first \\n is taken, so with CR line endings the whole program is repeated in front of the output' if want and got['text'] and len(got['text']) > len(want) else 'text and bytes input disagree or a non-first line is taken'),
                   key='C16.SHEB|enum|%r' % s[:30])
